@@ -3,7 +3,8 @@
 Theorems: XV.Props.C08 (pMatch_iff: the executable judge = the declarative particle language, ranges and all-groups
 included; expand_preserves / convert_preserves for the code-shaped ComplexTypeInfo::expandContentModel /
 convertContentSpecTree; expand_dfa_iff (chain to the C07 DFA model); all_iff_permutation for AllContentModel;
-wildcard_spec; substitution_closure_spec; attr_uses_iff; counting_eq_unrolled_partial (DFA with counting states).
+wildcard_spec; substitution_closure_spec; attr_uses_iff; counting_eq_unrolled (DFA with counting states = particle
+language, for every Particle-Correct tree without all-groups, Loop nodes included) and its _partial predecessor.
 
 Correspondence, content-model tier: schema-style ContentSpecNode trees (element / wildcard leaves, nested sequence /
 choice / all groups, occurrence ranges on leaves and groups) are put into a REAL ComplexTypeInfo; the real
@@ -28,7 +29,7 @@ GEN = []
 LEAN_MODULE = "XV.Props.C08"
 THEOREMS = ["XV.Props.C08." + t for t in (
     "nullable_iff", "deriv_step", "pMatch_iff", "expand_preserves", "convert_preserves", "expand_dfa_iff",
-    "counting_eq_unrolled_partial", "counting_repaired_witness",
+    "counting_eq_unrolled_partial", "counting_repaired_witness", "counting_eq_unrolled",
     "all_iff_permutation", "all_ctor", "wildcard_spec", "substitution_closure_spec", "attr_spec_iff",
     "attr_uses_iff", "validElem_iff_partial", "validDoc_root")]
 RULE = ("content-model tier: a curated list, two-leaf sequences/choices and one-/two-leaf groups with a group range over the "
